@@ -23,7 +23,11 @@ const P: &str = "C14";
 static WORLDS: OnceLock<Vec<World>> = OnceLock::new();
 
 fn worlds() -> &'static Vec<World> {
-    WORLDS.get_or_init(|| (0..4).map(|v| build_world(v, sim::EPOCH_BASE as u32)).collect())
+    WORLDS.get_or_init(|| {
+        // (Worlds 4-7 are worlds 0-3 at a later stage: the same keys.)
+        let keys: Vec<_> = (0..4).map(|_| super::dnssec_world::make_keys()).collect();
+        (0..8).map(|v| build_world(v, sim::EPOCH_BASE as u32, &keys[v as usize % 4])).collect()
+    })
 }
 
 /// A harmful change to a response: after it, the response is no longer what
@@ -517,7 +521,7 @@ fn next_closer_covered(class: &str) -> bool {
 
 async fn run(_tier: Tier) {
     let world_idx = sim::draw("world", 4) as usize;
-    let w = &worlds()[world_idx];
+    let mut w = &worlds()[world_idx];
     let up = Upstream {
         st: Arc::new(Mutex::new(UpState {
             world: world_idx,
@@ -589,16 +593,28 @@ async fn run(_tier: Tier) {
     // Plans 13 and 14 do the same at the expiration of the one signature that
     // ends early (zone.tld's DS RRset); plan 15 lets that moment pass between
     // the first and the second validation (warm caches, real passing of time).
-    let clock_plan = if adversarial { sim::draw("clock.plan", 16) } else { 0 };
+    // Plan 16: the first validation comes a second before the signatures'
+    // inception (a validator whose clock is a little behind the signer's);
+    // by the second validation, after what may be remembered as bogus has
+    // run out, the inception has passed.
+    let clock_plan = if adversarial { sim::draw("clock.plan", 17) } else { 0 };
     // The last second at which the chain to `name` is valid.
-    let eff_expiration = |name: &str| -> u64 {
+    let (w_ds_expiration, w_expiration) = (w.ds_expiration, w.expiration);
+    let eff_expiration = move |name: &str| -> u64 {
         // (names below dn.unsigned.tld. are redirected into zone.tld.)
         if name.to_ascii_lowercase().ends_with("zone.tld.") || name.to_ascii_lowercase().ends_with("dn.unsigned.tld.") {
-            w.ds_expiration.min(w.expiration) as u64
+            w_ds_expiration.min(w_expiration) as u64
         } else {
-            w.expiration as u64
+            w_expiration as u64
         }
     };
+    // The world moves on in some runs: between two validations the island's
+    // delegation becomes a secure one (its DS appears in the tld zone). The
+    // proof that it was insecure - an NSEC of the tld zone, 300 s - has run
+    // out by the time of the next validation, so what was rightly Insecure
+    // before is Secure from then on.
+    let ds_published_at = if !island_anchor && sim::chance("world.island_ds_gets_published", 1, 6) { Some(1 + sim::draw("world.island_ds_at", 2)) } else { None };
+    let mut ds_published = false;
     let base_off = match clock_plan {
         5 => 40 * day,  // all signatures expired
         6 => -3 * day,  // not yet valid
@@ -638,10 +654,23 @@ async fn run(_tier: Tier) {
         } else {
             step().await;
         }
-        let (qname, qtype, class) = QUERIES[sim::draw("query", QUERIES.len() as u64) as usize];
+        if ds_published_at == Some(qi) {
+            sim::stat("fault.insecure_delegation_becomes_secure_between_validations");
+            let s = 400 + sim::draw("world.island_ds_after_s", 2600);
+            ev!("{} s pass; meanwhile the DS of island.tld. is published", s);
+            sim::sleep_ms(1000 * s).await;
+            w = &worlds()[world_idx + 4];
+            up.st.lock().unwrap().world = world_idx + 4;
+            ds_published = true;
+        }
+        let (qname, qtype, class) = if ds_published_at.is_some() && sim::chance("query.island", 2, 3) {
+            QUERIES[35 + sim::draw("query.island_which", 3) as usize]
+        } else {
+            QUERIES[sim::draw("query", QUERIES.len() as u64) as usize]
+        };
         // The response handed to validate_msg.
         let mut r = w.resolve(qname, qtype);
-        if r.island && !island_anchor {
+        if r.island && !island_anchor && !ds_published {
             r.insecure = true;
         }
         let final_harm = if adversarial {
@@ -800,8 +829,15 @@ async fn run(_tier: Tier) {
             ev!("five seconds pass: the RRSIG over zone.tld's DS RRset expires");
             sim::sleep_ms(5000).await;
         }
-        if (9..=14).contains(&clock_plan) || (clock_plan == 15 && qi == 0) {
+        if clock_plan == 16 && qi == 1 {
+            sim::stat("fault.signature_inception_passes_between_validations");
+            ev!("{} s pass: the signatures' inception is in the past now", bogus_validity_s + 5);
+            sim::sleep_ms(1000 * (bogus_validity_s + 5)).await;
+        }
+        if (9..=14).contains(&clock_plan) || (clock_plan == 15 && qi == 0) || clock_plan == 16 {
             let target: i128 = match clock_plan {
+                16 if qi == 0 => w.inception as i128 - 1,
+                16 => w.inception as i128 + 10,
                 9 => w.inception as i128 - 1,
                 10 => w.inception as i128,
                 11 => w.expiration as i128,
@@ -840,7 +876,7 @@ async fn run(_tier: Tier) {
         for _ in 0..n_comp {
             let (cq, ct, cc) = QUERIES[sim::draw("companions.query", QUERIES.len() as u64) as usize];
             let mut cr = w.resolve(cq, ct);
-            if cr.island && !island_anchor {
+            if cr.island && !island_anchor && !ds_published {
                 cr.insecure = true;
             }
             legit_transform(&mut cr);
@@ -962,7 +998,16 @@ async fn run(_tier: Tier) {
                 Ok((s, _)) => format!("{:?}", s),
                 Err(e) => format!("Err({:?})", e).chars().take(60).collect(),
             };
-            ev!("  companion {} {} -> {}", cq, ct, cstate);
+            ev!(
+                "  companion {} {} -> {}{}",
+                cq,
+                ct,
+                cstate,
+                match cres {
+                    Ok((_, Some(ede))) => format!(" ede: {}", format!("{:?}", ede).chars().take(120).collect::<String>()),
+                    _ => String::new(),
+                }
+            );
             let csecure = matches!(cres, Ok((ValidationState::Secure, _)));
             let in_window = wall >= w.inception as u64 && wall <= eff_expiration(cq);
             if csecure && !in_window {
